@@ -1,7 +1,9 @@
 package eddsa
 
 import (
+	"bytes"
 	"crypto/cipher"
+	"crypto/ed25519"
 	"hash"
 	"io"
 
@@ -157,37 +159,52 @@ func HarnessEdDSASignWiring(p0 int) {
 	vassert(err == nil && len(sig) == 64, "Sign returns a 64-byte signature")
 	d := sgTheDigest
 	vassert(d != nil && d.sums == 2 && sgSetBytesCalls == 2, "exactly two digests are taken and turned into scalars")
-	// first digest: prefix || msg
-	ok1 := d.lens[0] == 32+p0
+	// first digest: prefix || msg   (one assertion per byte: no accumulated conjunctions)
+	vassert(d.lens[0] == 32+p0, "the nonce digest absorbs exactly prefix || msg (length)")
 	for i := 0; i < 32; i++ {
-		ok1 = ok1 && d.seen[0][i] == prefix[i]
+		vassert(d.seen[0][i] == prefix[i], "the nonce digest absorbs prefix || msg")
 	}
 	for i := 0; i < p0; i++ {
-		ok1 = ok1 && d.seen[0][32+i] == msg0[i]
+		vassert(d.seen[0][32+i] == msg0[i], "the nonce digest absorbs prefix || msg")
 	}
-	vassert(ok1, "the nonce digest absorbs prefix || msg")
 	r, h := sgDigestOf[0], sgDigestOf[1]
 	vassert(sgDigests[0] == d.out[0] && sgDigests[1] == d.out[1], "nonce and challenge are derived from the first and the second digest")
 	// second digest: enc(R) || enc(A) || msg with R = r*B
-	ok2 := d.lens[1] == 64+p0
+	vassert(d.lens[1] == 64+p0, "the challenge digest absorbs exactly enc(r*B) || enc(A) || msg (length)")
 	encR, encA := sgEnc(r), sgEnc(a.v)
 	for i := 0; i < 32; i++ {
-		ok2 = ok2 && d.seen[1][i] == encR[i] && d.seen[1][32+i] == encA[i]
+		vassert(d.seen[1][i] == encR[i], "the challenge digest absorbs enc(r*B) || enc(A) || msg")
+		vassert(d.seen[1][32+i] == encA[i], "the challenge digest absorbs enc(r*B) || enc(A) || msg")
 	}
 	for i := 0; i < p0; i++ {
-		ok2 = ok2 && d.seen[1][64+i] == msg0[i]
+		vassert(d.seen[1][64+i] == msg0[i], "the challenge digest absorbs enc(r*B) || enc(A) || msg")
 	}
-	vassert(ok2, "the challenge digest absorbs enc(r*B) || enc(A) || msg")
 	// signature: enc(R) || enc(r + h*a)
 	encS := sgEnc(r + h*a.v)
-	ok3 := true
 	for i := 0; i < 32; i++ {
-		ok3 = ok3 && sig[i] == encR[i] && sig[32+i] == encS[i]
+		vassert(sig[i] == encR[i], "the signature is enc(r*B) || enc(r + h*a)")
+		vassert(sig[32+i] == encS[i], "the signature is enc(r*B) || enc(r + h*a)")
 	}
-	vassert(ok3, "the signature is enc(r*B) || enc(r + h*a)")
-	same := true
 	for i := range msg {
-		same = same && msg[i] == msg0[i]
+		vassert(msg[i] == msg0[i], "the message is left unchanged")
 	}
-	vassert(same && a.v == A.k, "message and key are left unchanged")
+	vassert(a.v == A.k, "the key is left unchanged")
+}
+
+// native replay: the real Sign against crypto/ed25519 on the same key (RFC 8032 determinism), several messages
+func HarnessEdDSASignReplay(p0 int) {
+	ok := true
+	g := edwards25519.NewBlakeSHA256Ed25519()
+	e := NewEdDSA(g.RandomStream())
+	kb, _ := e.MarshalBinary()
+	priv := ed25519.PrivateKey(kb)
+	for _, msg := range [][]byte{{}, {1}, []byte("hello"), make([]byte, 33), make([]byte, 200)} {
+		sig, err := e.Sign(msg)
+		ok = ok && err == nil && bytes.Equal(sig, ed25519.Sign(priv, msg)) && Verify(e.Public, msg, sig) == nil
+	}
+	for _, id := range []string{"Sign returns a 64-byte signature", "exactly two digests are taken and turned into scalars", "the nonce digest absorbs exactly prefix || msg (length)", "the nonce digest absorbs prefix || msg",
+		"nonce and challenge are derived from the first and the second digest", "the challenge digest absorbs exactly enc(r*B) || enc(A) || msg (length)", "the challenge digest absorbs enc(r*B) || enc(A) || msg",
+		"the signature is enc(r*B) || enc(r + h*a)", "the message is left unchanged", "the key is left unchanged"} {
+		vassert(ok, id)
+	}
 }
